@@ -42,6 +42,8 @@ type c20Obs struct {
 	Step       int               `json:"step"`
 	Op         string            `json:"op"`
 	Devices    map[string]string `json:"devices,omitempty"`
+	Listings   map[string]string `json:"listings,omitempty"` // vendors, classes, Spec files per vendor
+	FirstQuery string            `json:"first_query,omitempty"`
 	ErrKeys    []string          `json:"err_keys,omitempty"`
 	DirErrKeys []string          `json:"dir_err_keys,omitempty"`
 	ErrMsgs    map[string]string `json:"err_msgs,omitempty"`
@@ -123,6 +125,7 @@ func childC20(args []string) int {
 		Anchor  string    `json:"anchor"`
 		Default bool      `json:"default"`
 		Steps   []c20Step `json:"steps"`
+		Turn    int       `json:"turn"`
 	}
 	if err := json.Unmarshal(data, &script); err != nil {
 		return 2
@@ -203,15 +206,45 @@ func childC20(args []string) int {
 		}
 		return false
 	}
+	stateTurn := script.Turn
 	state := func(c *cdi.Cache, o *c20Obs) {
 		o.Devices = map[string]string{}
-		for _, q := range c.ListDevices() {
-			d := c.GetDevice(q)
-			if d == nil {
-				o.Devices[q] = "<nil>"
-				continue
-			}
-			o.Devices[q] = fmt.Sprintf("%s@%d %s", d.GetSpec().GetPath(), d.GetSpec().GetPriority(), normJSON(d.Device))
+		o.Listings = map[string]string{}
+		// every query brings the cache up to date by itself: which one is asked first
+		// changes from observation to observation, what they answer must not
+		groups := []struct {
+			name string
+			run  func()
+		}{
+			{"ListDevices", func() {
+				for _, q := range c.ListDevices() {
+					d := c.GetDevice(q)
+					if d == nil {
+						o.Devices[q] = "<nil>"
+						continue
+					}
+					o.Devices[q] = fmt.Sprintf("%s@%d %s", d.GetSpec().GetPath(), d.GetSpec().GetPriority(), normJSON(d.Device))
+				}
+			}},
+			{"ListVendors", func() { o.Listings["vendors"] = fmt.Sprint(c.ListVendors()) }},
+			{"ListClasses", func() { o.Listings["classes"] = fmt.Sprint(c.ListClasses()) }},
+			{"GetVendorSpecs", func() {
+				for _, v := range []string{"vendor.com", "acme.io", "vendor1.com", "vendor2.com"} {
+					var ps []string
+					for _, sp := range c.GetVendorSpecs(v) {
+						ps = append(ps, fmt.Sprintf("%s@%d", sp.GetPath(), sp.GetPriority()))
+					}
+					sort.Strings(ps)
+					if len(ps) > 0 {
+						o.Listings["specs of "+v] = fmt.Sprint(ps)
+					}
+				}
+			}},
+		}
+		stateTurn++
+		o.FirstQuery = groups[stateTurn%len(groups)].name
+		for k := range groups {
+			groups[(stateTurn+k)%len(groups)].run()
 		}
 		o.ErrMsgs = map[string]string{}
 		for k, errs := range c.GetErrors() {
@@ -329,6 +362,7 @@ func childC20(args []string) int {
 			case "quiesce":
 				if !quiesce() {
 					obs.Err = "quiesce-timeout"
+					obs.Fds, obs.InotifyFds, obs.WatchedIno, obs.Goroutines = c20Resources()
 				}
 			case "hold":
 				ch := make(chan struct{})
@@ -399,6 +433,9 @@ func childC20(args []string) int {
 		}
 		if st.Op == "observe" || st.Op == "query" || st.Op == "baseline" || st.Op == "fresh" || obs.Err != "" || obs.Panic != "" || obs.EnvSuspect {
 			out.Encode(obs)
+		}
+		if obs.Err == "quiesce-timeout" {
+			break // (the parent stops reading here anyway; every further wait would time out as well)
 		}
 	}
 	out.Encode(c20Obs{Step: len(script.Steps), Op: "end"})
@@ -511,7 +548,7 @@ func checkC20(c *Ctx) {
 		}
 		exhausted := false
 		held := false
-		if f := fixed[cs.Name]; f != nil {
+		if f := fixed[catName(cs.Name)]; f != nil {
 			// a hand-written history replaces the generated reconfigurations
 			var fs []c20Step
 			fs, curDirs, curAuto = f(root, anchor, pool)
@@ -657,7 +694,8 @@ func checkC20(c *Ctx) {
 		}
 		// (a "later" write into a final directory that does not exist creates it:
 		// "directories missing at start, created later" is a legitimate change too)
-		script := map[string]any{"root": root, "anchor": anchor, "default": useDefault, "steps": steps}
+		// (which query an observation asks first rotates; where the rotation starts differs from case to case)
+		script := map[string]any{"root": root, "anchor": anchor, "default": useDefault, "steps": steps, "turn": turnOf(cs.Name)}
 		sf := filepath.Join(root, "script.json")
 		sb, _ := json.Marshal(script)
 		must(os.WriteFile(sf, sb, 0o644))
@@ -703,6 +741,11 @@ func checkC20(c *Ctx) {
 				continue
 			}
 			if o.Err == "quiesce-timeout" {
+				if o.InotifyFds >= 1 && o.Goroutines < 2*o.InotifyFds {
+					// nobody is there to take the events: not a matter of waiting longer
+					cs.Violation("auto-refresh-inactive", map[string]string{"default": fmt.Sprint(useDefault)}, fmt.Sprintf("step %d: the process holds %d inotify instance(s) but only %d of the %d goroutines that read and handle its events exist; the sentinel event was never handled", o.Step, o.InotifyFds, o.Goroutines, 2*o.InotifyFds), map[string]any{"script": steps, "observation": o})
+					return 0
+				}
 				c.Inconclusive("quiesce-timeout")
 				return
 			}
@@ -801,6 +844,9 @@ func checkC20(c *Ctx) {
 			if jsonStr(a.Devices) != jsonStr(b.Devices) {
 				bad = append(bad, fmt.Sprintf("devices %s vs fresh %s", jsonStr(a.Devices), jsonStr(b.Devices)))
 			}
+			if jsonStr(a.Listings) != jsonStr(b.Listings) {
+				bad = append(bad, fmt.Sprintf("listings %s (first query of that observation: %s) vs fresh %s", jsonStr(a.Listings), a.FirstQuery, jsonStr(b.Listings)))
+			}
 			if jsonStr(a.ErrKeys) != jsonStr(b.ErrKeys) {
 				bad = append(bad, fmt.Sprintf("error keys %v vs fresh %v", a.ErrKeys, b.ErrKeys))
 			}
@@ -825,6 +871,10 @@ func checkC20(c *Ctx) {
 		allowFd, allowG, wantIn := 0, 0, 0
 		if curAuto {
 			allowFd, allowG, wantIn = 4, 2, 1
+		}
+		if curAuto && fin.InotifyFds == 1 && fin.Goroutines < 2 {
+			cs.Violation("auto-refresh-inactive", tags, fmt.Sprintf("auto-refresh is enabled and the cache holds an inotify instance, but only %d of the 2 goroutines that read and handle its events exist", fin.Goroutines), wit())
+			return
 		}
 		if fin.Fds > base.Fds+allowFd || fin.InotifyFds > wantIn || fin.Goroutines > allowG {
 			cs.Violation("resource-growth", tags, fmt.Sprintf("after %d reconfigurations: %d descriptors (baseline %d), %d inotify instances, %d watcher goroutines; allowed: baseline+%d, %d, %d", nconf, fin.Fds, base.Fds, fin.InotifyFds, fin.Goroutines, allowFd, wantIn, allowG), wit())
@@ -861,10 +911,18 @@ func checkC20(c *Ctx) {
 			c.Count("watch_sets_checked", 1)
 		}
 		later, fresh2 := obs[iLater], obs[iFresh2]
-		_ = iLater1
 		if curAuto {
 			if fin.InotifyFds == 0 {
 				c.Count("auto_without_watcher", 1) // no inotify instance was available: every query rescans
+			}
+			if fin.InotifyFds == 0 {
+				// (nothing asynchronous without a watcher: every query looks at the directories
+				// itself, so the very first round of queries after the change is right already)
+				if bad := same(obs[iLater1], fresh2); len(bad) > 0 {
+					cs.Violation("auto-refresh-inactive", tags, fmt.Sprintf("auto-refresh is enabled, the cache has no watcher, and the first queries after a later change in the final directories do not reflect it: %s", bad[0]), map[string]any{"discrepancies": bad, "w": wit()})
+					return
+				}
+				c.Count("first_round_after_a_change_checked_on_watcherless_caches", 1)
 			}
 			if bad := same(later, fresh2); len(bad) > 0 {
 				cs.Violation("auto-refresh-inactive", tags, fmt.Sprintf("auto-refresh is enabled but a later change in the final directories is not reflected: %s", bad[0]), map[string]any{"discrepancies": bad, "w": wit()})
@@ -899,6 +957,26 @@ func checkC20(c *Ctx) {
 			{Op: "release"},
 		}, dirs, true
 	}
+	// catalogue: every directory of the list is missing when the cache is set up; they
+	// appear later, a first query finds them, and from then on changes are followed
+	for _, how := range []string{"new", "configure"} {
+		how := how
+		fixed["cat:all-directories-missing-at-setup:"+how] = func(root, anchor string, pool []string) ([]c20Step, []string, bool) {
+			late := filepath.Join(root, "not-yet", "late")
+			dirs := []string{anchor, late}
+			steps := []c20Step{{Op: "rmdir", Path: anchor}}
+			if how == "new" {
+				steps = append(steps, c20Step{Op: "new", Dirs: dirs, Auto: boolp(true)})
+			} else {
+				steps = append(steps, c20Step{Op: "new", Dirs: []string{pool[0]}, Auto: boolp(true)}, c20Step{Op: "configure", Dirs: dirs})
+			}
+			return append(steps,
+				c20Step{Op: "mkdir", Path: anchor},
+				c20Step{Op: "mkdir", Path: late},
+				c20Step{Op: "write", Path: filepath.Join(late, "first.json"), Content: c20SpecContent("first")},
+				c20Step{Op: "query"}), dirs, true
+		}
+	}
 	// catalogue: a cache set up during a shortage on directories that hold nothing
 	// (empty, missing): there is nothing to load, yet it has to keep looking, as a
 	// Spec written later must show up
@@ -914,8 +992,13 @@ func checkC20(c *Ctx) {
 			return []c20Step{{Op: "new", Dirs: dirs, Auto: boolp(false)}, {Op: "exhaust-begin", Mode: "fill"}, {Op: "configure", Auto: boolp(true)}, {Op: "query"}, {Op: "exhaust-end"}, {Op: "query"}}, dirs, true
 		}
 	}
-	c.RunNamed([]string{"cat:held-watcher-across-configure"}, 1, func(cs *Case) { run(cs, -1, false, "") })
-	c.RunNamed([]string{"cat:shortage-on-empty-directories:new", "cat:shortage-on-empty-directories:manual-then-auto"}, 2, func(cs *Case) { run(cs, 0, false, "fill") })
+	c.RunNamed([]string{"cat:held-watcher-across-configure", "cat:all-directories-missing-at-setup:new", "cat:all-directories-missing-at-setup:configure"}, 3, func(cs *Case) { run(cs, -1, false, "") })
+	var shortageCases []string
+	for t := 0; t < 4; t++ {
+		// (":tN": the first observation starts with the N-th kind of query)
+		shortageCases = append(shortageCases, fmt.Sprintf("cat:shortage-on-empty-directories:new:t%d", t), fmt.Sprintf("cat:shortage-on-empty-directories:manual-then-auto:t%d", t))
+	}
+	c.RunNamed(shortageCases, 4, func(cs *Case) { run(cs, 0, false, "fill") })
 	c.RunCases("hist", nh, 8, func(cs *Case) { run(cs, -1, false, "") })
 	c.RunCases("exhaust", ne, 8, func(cs *Case) {
 		var i int
@@ -929,4 +1012,20 @@ func checkC20(c *Ctx) {
 	for k := 0; k <= 8; k++ {
 		c.Floor(fmt.Sprintf("exhaustion_at_step:%d", k), 1)
 	}
+}
+
+// catName strips the ":tN" suffix of a catalogue case name; turnOf is the N (or a
+// value derived from the name) at which the rotation of first queries starts.
+func catName(name string) string {
+	if i := strings.LastIndex(name, ":t"); i > 0 && len(name)-i == 3 {
+		return name[:i]
+	}
+	return name
+}
+
+func turnOf(name string) int {
+	if catName(name) != name {
+		return int(name[len(name)-1] - '0')
+	}
+	return int(nameHash(name) % 4)
 }
